@@ -46,6 +46,16 @@ def simplifier_encoder(field_value):
     return field_value.simplify()
 
 
+def sql_int(value):
+    """SQL integers are 64 bits wide. A larger value is handed to the database
+    as text (value columns are VARCHAR) instead of being rejected at flush time."""
+    if isinstance(value, int):
+        value = int(value)
+        if not -(2**63) <= value < 2**63:
+            return str(value)
+    return value
+
+
 class OutputStream(ABC):
     """Common base class for all output streams"""
 
@@ -303,9 +313,19 @@ class SqlDbOutputStream(OutputStream):
     encoders: Mapping[type, Callable] = {
         **OutputStream.encoders,
         datetime.datetime: format_datetime,  # format into Salesforce-friendly syntax
+        int: sql_int,
     }
 
     should_close_session = False
+
+    def flatten(
+        self,
+        sourcetable: str,
+        fieldname: str,
+        source_row_dict: Dict,
+        target_object_row: Union[ObjectRow, ObjectReference],
+    ) -> Union[str, int]:
+        return sql_int(target_object_row.id)
 
     def __init__(self, engine: Engine, mappings: None = None, **kwargs):
         if mappings:  # pragma: no cover  -- should not be triggered.
@@ -407,6 +427,8 @@ class SqlTextOutputStream(FileOutputStream):
 
     mode = "wt"
     is_text = True
+    encoders: Mapping[type, Callable] = {**OutputStream.encoders, int: sql_int}
+    flatten = SqlDbOutputStream.flatten
 
     def __init__(self, stream_or_path=None, **kwargs):
         self.text_output = SmartStream(stream_or_path)
